@@ -3,6 +3,7 @@
            a cursor over a block stream the writer produced (the reader is carried on from where each
            copy stopped: ReaderPos.v).
    Part 2 (CliArchive.v): the commands on archive bytes, through Archive.archive_write / archive_open. *)
+From MLA Require Import Limit.
 From MLA Require Import Base Stream Blocks Writer Reader RoundTripBlocks RoundTripFooter RoundTripReader
   RoundTripWriter RoundTripRun RoundTripGlue RoundTrip ReaderPos Path Tar TarProofs Cli.
 From Coq Require Import ZifyBool ZifyNat ZifyN Permutation Sorted.
@@ -179,6 +180,7 @@ Proof.
 Qed.
 
 Section Loops.
+  Context {LIM : Limit}.
   Variable FNMAX : N.
   Variables TS TC TA TE : N.
   Variable H : bytes -> bytes.
